@@ -65,7 +65,7 @@ class HexInt(Contract):
         return S.result == core.mk_num(v)
 
     ensures = dict(base16_value=_value)
-    canaries = [("if not _ishexdigits(b):", "if False:", "ValueError-exactly-when")]
+    canaries = [("if not _ishexdigits(b):", "if False:", "!verify")]  # the mutant leaves the modelled fragment (int() of non-hex)
 
 
 class ToChunk(Contract):
@@ -231,27 +231,55 @@ class ChunkLengthState(Contract):
 
     raises = (http._MalformedChunkedDataError,)
 
-    def _post(S):
-        if S.exc is not None:
-            return None
+    def _common(S):
         d, buf = S.new.d, S.i.buf
         newbuf = bytes(d._buffer) if isinstance(d._buffer, bytearray) else d._buffer
-        e = first_crlf(buf)
+        return d, buf, newbuf, first_crlf(buf)
+
+    def _incomplete(S):
+        if S.exc is not None:
+            return None
+        d, buf, newbuf, e = ChunkLengthState._common(S)
+        if not (e < 0):
+            return None
+        # no complete line yet: keep everything, remember where a straddling CR LF could begin
+        return band(S.result is False, veq(newbuf, buf), d.state == "CHUNK_LENGTH", d._start >= 0, d._start <= L(buf) - 1)
+
+    def _parsed(S):
+        if S.exc is not None:
+            return None
+        d, buf, newbuf, e = ChunkLengthState._common(S)
         if e < 0:
-            # no complete line yet: keep everything, remember where a straddling CR LF could begin
-            return band(S.result is False, veq(newbuf, buf), d.state == "CHUNK_LENGTH",
-                        d._start >= 0, d._start <= L(buf) - 1)
+            return None
         b, v = S.ghost["hexint"]
         semi = core.seq_find(buf[:e], b";", 0) if is_sym(buf) else bytes(buf[:e]).find(b";")
         raw_end = e if semi < 0 else semi
-        return band(S.result is True, veq(b, buf[:raw_end]), veq(d.length, v), veq(newbuf, buf[e + 2:]),
-                    d.state == ("TRAILER" if v == 0 else "BODY"),
-                    # the invariant of _start is re-established for whatever follows
-                    d._start >= 0, d._start <= L(newbuf), no_crlf_before(newbuf, d._start))
+        return band(S.result is True, veq(b, buf[:raw_end]), veq(d.length, v), d.state == ("TRAILER" if v == 0 else "BODY"))
 
-    ensures = dict(size_line_parsed_and_start_invariant_kept=_post)
-    canaries = [("self._start = len(self._buffer) - 1", "self._start = len(self._buffer)", "size_line_parsed_and_start_invariant_kept"),
-                ("del self._buffer[0 : eolIndex + 2]", "del self._buffer[0 : eolIndex + 1]", "size_line_parsed_and_start_invariant_kept")]
+    def _consumed(S):
+        if S.exc is not None:
+            return None
+        d, buf, newbuf, e = ChunkLengthState._common(S)
+        if e < 0:
+            return None
+        return veq(newbuf, buf[e + 2:])
+
+    def _start_inv(S):
+        if S.exc is not None:
+            return None
+        d, buf, newbuf, e = ChunkLengthState._common(S)
+        if e < 0:
+            return None
+        # the invariant of _start is re-established for whatever follows
+        return band(d._start >= 0, d._start <= L(newbuf), no_crlf_before(newbuf, d._start))
+
+    # one obligation per conjunct (each is a small solver query)
+    ensures = dict(incomplete_line_kept=_incomplete, size_line_parsed=_parsed, size_line_consumed=_consumed,
+                   start_invariant_kept=_start_inv)
+    timeout_thorough = 180
+    timeout_quick = 120
+    canaries = [("self._start = len(self._buffer) - 1", "self._start = len(self._buffer)", "incomplete_line_kept"),
+                ("del self._buffer[0 : eolIndex + 2]", "del self._buffer[0 : eolIndex + 1]", "size_line_consumed")]
 
 
 CONTRACTS = [IsHexDigits, HexInt, ToChunk, BodyState, CrlfState, NoMoreData, ChunkLengthState]
